@@ -404,12 +404,24 @@ def powLoop (tab : DigitTab) (decSep : Nat) : Str → PowSt → Except FErr PowS
     else if c == 43 then powLoop tab decSep r st           -- `continue`: skips the end-of-text push as well
     else powLoop tab decSep r (if last then st.push else st)
 
-/-- `_power_number_parse(text)` under precision `p`. -/
-def powerNumberParse (p : Nat) (tab : DigitTab) (decSep : Nat) (text : Str) : Except FErr Dec := do
-  let st ← powLoop tab decSep (upperAscii text) {}
+/-- `str.replace(old, new)` for a non-empty `old` -/
+def replaceAll (old new s : Str) : Str := Dec.joinWith new (Dec.splitOn old s)
+
+/-- `X10^` and `E` -/
+def x10Caret : Str := [88, 49, 48, 94]
+
+/-- `_power_number_parse(text)` under precision `p`. Two variants of the code are modelled (findings/numfrac/pow-x10.diff):
+`fx = false`: the code as first found — `handle = text.upper()`, `exponent = '^' not in text`, so `1.5x10^3` falls under
+the caret rule with mantissa `1.510`; `fx = true`: the repaired code (as the C# original) —
+`handle = text.upper().replace('X10^', 'E')`, `exponent = '^' not in handle`. The correspondence probes which variant the
+working tree follows. -/
+def powerNumberParse (fx : Bool) (p : Nat) (tab : DigitTab) (decSep : Nat) (text : Str) : Except FErr Dec := do
+  let handle := if fx then replaceAll x10Caret [69] (upperAscii text) else upperAscii text
+  let exponent := if fx then !handle.contains 94 else !text.contains 94
+  let st ← powLoop tab decSep handle {}
   match st.stack.reverse with
   | a :: b :: _ =>
-    if !text.contains 94 then do
+    if exponent then do
       let t ← decPow p (Dec.ofNat 10) b.toDec
       pure (Dec.mul p a.toDec t)
     else decPow p a.toDec b.toDec
@@ -658,9 +670,9 @@ def Val.str : Val → Str
 
 def resolutionOf (lf : Option (Nat × Nat)) (v : Val) : Str := Dec.formatStr lf v.str
 
-/-- `BaseNumberParser.parse` (string data): `none` = the type is not supported (returns None);
+/-- `BaseNumberParser.parse` (string data; `fx` = the variant of `_power_number_parse`): `none` = the type is not supported (returns None);
 otherwise the value and the resolution string. -/
-def parse (p : Nat) (tab : DigitTab) (T : TokTab) (sp : Nat → Bool) (c : FracCfg) (lf : Option (Nat × Nat))
+def parse (fx : Bool) (p : Nat) (tab : DigitTab) (T : TokTab) (sp : Nat → Bool) (c : FracCfg) (lf : Option (Nat × Nat))
     (supported : List Str) (type : Str) (data : Option Str) (text : Str) (aux : Aux) :
     Except FErr (Option (Val × Str)) :=
   if !supported.isEmpty && !supported.contains type then .ok none
@@ -678,7 +690,7 @@ def parse (p : Nat) (tab : DigitTab) (T : TokTab) (sp : Nat → Bool) (c : FracC
         let d ← textNumberParse p tab T c.lang c.alts c.loose c.writtenDecSep aux.halfDozen
         pure (Val.dec d)
       | .pow => do
-        let d ← powerNumberParse p tab c.sep.decSep body
+        let d ← powerNumberParse fx p tab c.sep.decSep body
         pure (Val.dec d)
       | .none => Except.error FErr.typeError
     let v := if aux.negLen.isSome then v.negate p else v
@@ -686,10 +698,10 @@ def parse (p : Nat) (tab : DigitTab) (T : TokTab) (sp : Nat → Bool) (c : FracC
 
 /-- `BasePercentageParser.parse` on `data = [number text, number ExtractResult]`: the number parser's result for the
 inner text and tag, resolution with `%`. -/
-def percentParse (p : Nat) (tab : DigitTab) (T : TokTab) (sp : Nat → Bool) (c : FracCfg) (lf : Option (Nat × Nat))
+def percentParse (fx : Bool) (p : Nat) (tab : DigitTab) (T : TokTab) (sp : Nat → Bool) (c : FracCfg) (lf : Option (Nat × Nat))
     (supported : List Str) (type : Str) (data : Option Str) (text : Str) (aux : Aux) :
     Except FErr (Option (Val × Str)) := do
-  match ← parse p tab T sp c lf supported type data text aux with
+  match ← parse fx p tab T sp c lf supported type data text aux with
   | none => .error .typeError                 -- `None.resolution_str`
   | some (v, res) => pure (some (v, percentSuffix sp res))
 
